@@ -63,7 +63,9 @@ def run_real(case):
     if kind == "sel":
         # spread the peaks over up to three correlations, keeping the global order of enumeration
         scores = v["scores"]
-        peaks = [Peak(100 * i, 1., 0, 0, float(s)) for i, s in enumerate(scores, start=1)]
+        # peaks of DIFFERENT correlations may be equal as Peak objects (Peak.__eq__ looks at position, height and bases, not at
+        # the score or the correlation): position 100 * (i mod 3) makes the k-th peak of each third coincide
+        peaks = [Peak(100 * (i % 3 + 1), 1., 0, 0, float(s)) for i, s in enumerate(scores, start=1)]
         cut1, cut2 = len(peaks) // 3, 2 * len(peaks) // 3
         cors = [SimpleNamespace(peaks=peaks[:cut1]), SimpleNamespace(peaks=peaks[cut1:cut2]),
                 SimpleNamespace(peaks=peaks[cut2:])]
